@@ -21,6 +21,7 @@ import (
 	"github.com/pingcap/kvproto/pkg/kvrpcpb"
 	"github.com/pingcap/tidb/pkg/store/mockstore/unistore"
 	"github.com/pkg/errors"
+	"github.com/tikv/client-go/v2/config"
 	"github.com/tikv/client-go/v2/config/retry"
 	tikverr "github.com/tikv/client-go/v2/error"
 	"github.com/tikv/client-go/v2/kv"
@@ -83,6 +84,7 @@ type Scenario struct {
 	Recover   bool     `json:"recover"`
 	Keys      []string `json:"keys"` // all keys to audit
 	Others    []OtherTxn `json:"others"` // unused
+	SafeWindowMs *int  `json:"safe_window_ms"` // config AsyncCommit.SafeWindow in ms (nil = default 2 s): 0 makes the store decline async commit / 1PC (max commit ts exceeded) so that the client falls back
 	ManagedTTL uint64  `json:"managed_ttl"` // transaction.ManagedLockTTL in ms (0 = default 20000): small values make heart-beats observable
 	Program   []Step   `json:"program"` // multi-transaction step program (C06 / C01); when set, Txn is ignored
 	Txns      map[string]TxnSpec `json:"txns"` // specs of the transactions named in Program (ops unused)
@@ -885,6 +887,11 @@ func runScenario(sc *Scenario) map[string]interface{} {
 	} else {
 		atomic.StoreUint64(&transaction.ManagedLockTTL, 20000)
 	}
+	sw := 2 * time.Second
+	if sc.SafeWindowMs != nil {
+		sw = time.Duration(*sc.SafeWindowMs) * time.Millisecond
+	}
+	config.UpdateGlobal(func(c *config.Config) { c.TiKVClient.AsyncCommit.SafeWindow = sw })
 	e, err := newEnv(sc)
 	if err != nil {
 		out["fatal"] = err.Error()
